@@ -23,8 +23,10 @@
 (* and the driver refuses to run unless it has a builder for exactly these triples.             *)
 EXTENDS Integers, Sequences, FiniteSets, TLC, Json
 
-Tokens == {"d", "v1", "v1r", "v2", "v3", "v4"}
-Canon  == [d |-> "d", v1 |-> "v1", v1r |-> "v1", v2 |-> "v2", v3 |-> "v3", v4 |-> "v4"]
+(*    "de"         the default VALUE passed explicitly (history lists: [] instead of leaving the  *)
+(*                 keyword out) - the same value as "d" spelled another way, like "v1r" for "v1" *)
+Tokens == {"d", "de", "v1", "v1r", "v2", "v3", "v4"}
+Canon  == [d |-> "d", de |-> "d", v1 |-> "v1", v1r |-> "v1", v2 |-> "v2", v3 |-> "v3", v4 |-> "v4"]
 
 (* ---- token domains ---- *)
 V    == <<"v1", "v2">>                    \* required parameter
@@ -36,6 +38,11 @@ D4   == <<"d", "v1", "v2", "v3", "v4">>
 B    == <<"d", "v1">>                     \* optional bool: default and its negation
 VS   == <<"v1", "v1r", "v2">>             \* required set-valued parameter
 DS   == <<"d", "v1", "v1r", "v2">>        \* optional set- / dict-valued parameter
+(* history lists of a dynamic obstacle: default, explicit [], two entries, one of them perturbed, one entry,  *)
+(* entries with None (what update_initial_state archives for default arguments), id sets re-inserted          *)
+HL   == <<"d", "de", "v1", "v2", "v3">>                  \* list of states (never None)
+HLN  == <<"d", "de", "v1", "v2", "v3", "v4">>            \* list of signal states, v4 = [None, s]
+HLS  == <<"d", "de", "v1", "v1r", "v2", "v3", "v4">>     \* list of id sets, v4 = [None, {3}]
 
 G(name, toks) == [g |-> name, toks |-> toks]
 C(name, groups) == [cls |-> name, groups |-> groups]
@@ -93,9 +100,9 @@ ClassTable == <<
   (* ---- obstacles ---- *)
   C("StaticObstacle", ObstacleCommon),
   C("DynamicObstacle", ObstacleCommon \o <<G("prediction", D3), G("initial_meta_information_state", D),
-                        G("meta_information_series", D), G("external_dataset_id", D), G("history", D),
-                        G("signal_history", D), G("center_lanelet_ids_history", DS),
-                        G("shape_lanelet_ids_history", DS)>>),
+                        G("meta_information_series", D), G("external_dataset_id", D), G("history", HL),
+                        G("signal_history", HLN), G("center_lanelet_ids_history", HLS),
+                        G("shape_lanelet_ids_history", HLS)>>),
   C("PhantomObstacle", <<G("obstacle_id", V), G("prediction", D)>>),
   C("EnvironmentObstacle", <<G("obstacle_id", V), G("obstacle_type", V), G("obstacle_shape", V3)>>),
   (* ---- road network ---- *)
@@ -268,12 +275,31 @@ MotGroups(c, mk) == IF mk = "move" THEN (IF c \in DOMAIN Moved THEN Moved[c] ELS
 Displaced(c, mk, v) == \E g \in MotGroups(c, mk) : v[g] # "d" \/ <<c, g>> \in SpatialDefault
 MotBefore(mk) == IF mk = "flat" THEN "z3" ELSE "id"
 MotAfter(mk)  == IF mk = "move" THEN "m1" ELSE "id"
-MutKinds == {"set", "move", "flat"}
+(*   "adv"   DynamicObstacle.update_initial_state(state [, signal state, centre ids, shape ids] [, max_history_length]): *)
+(*           the obstacle is ADVANCED: its initial state / signal state / lanelet ids are archived at the end of the  *)
+(*           four history lists (truncated to the last n entries), the arguments become the new initial values        *)
+(*           (left out = None), prediction and signal series are dropped.  In token space: B = A with the initial     *)
+(*           groups at the argument tokens and prediction = signal_series = "d"; the history groups keep A's tokens    *)
+(*           and the descriptor carries the archive mark <<n, archived tokens>> (n = 0: no max_history_length given). *)
+(*   "upd"   DynamicObstacle.update_prediction(prediction [, signal_series]): two groups change at once                *)
+MutKinds == {"set", "move", "flat", "adv", "upd"}
+Advanced == {"DynamicObstacle"}
+AdvInitial == <<"initial_state", "initial_signal_state", "initial_center_lanelet_ids", "initial_shape_lanelet_ids">>
+AdvDropped == {"prediction", "signal_series"}
+AdvLengths == 0..2
+(* the four history lists run in parallel (one entry per past time step); the library truncates all of them when *)
+(* `history` exceeds max_history_length, so advancing is only defined for lists of one common length              *)
+AdvHistory == {"history", "signal_history", "center_lanelet_ids_history", "shape_lanelet_ids_history"}
+HistLen == [d |-> 0, de |-> 0, v1 |-> 2, v1r |-> 2, v2 |-> 2, v3 |-> 1, v4 |-> 2]
+Parallel(a) == \A g, h \in AdvHistory : HistLen[a[g]] = HistLen[a[h]]
+AdvMark(a, n) == <<n>> \o [i \in 1..Len(AdvInitial) |-> Canon[a[AdvInitial[i]]]]
 
-Desc(v, m) == [val |-> v, mot |-> m]
-DescKey(d) == [val |-> HashKey(d.val), mot |-> d.mot]
-(* descriptors of one class: equal iff same values modulo insertion order and same displacement *)
+DescA(v, m, k) == [val |-> v, mot |-> m, adv |-> k]
+Desc(v, m) == DescA(v, m, <<>>)
+DescKey(d) == [val |-> HashKey(d.val), mot |-> d.mot, adv |-> d.adv]
+(* descriptors of one class: equal iff same values modulo insertion order, same displacement, same archive *)
 ExpectedEqD(c, p, q) == /\ ExpectedEq(p.val, q.val)
+                        /\ p.adv = q.adv
                         /\ \/ p.mot = q.mot
                            \/ /\ "z3" \notin {p.mot, q.mot} /\ ~Displaced(c, "move", p.val)
                            \/ /\ "m1" \notin {p.mot, q.mot} /\ ~Displaced(c, "flat", p.val)
@@ -284,6 +310,15 @@ IsMutation(c, mk, a, b) ==
                       /\ LET g == CHOOSE h \in Differing(a, b) : TRUE IN <<a[g], b[g]>> \in SetPairs(c, g)
                       /\ \A h \in DOMAIN a : h \in Differing(a, b) \/ a[h] = b[h]
     [] mk \in {"move", "flat"} -> a = b /\ Displaced(c, mk, a) /\ ~(mk = "move" /\ MoveBlocked(c, a))
+    [] mk = "adv" -> /\ c \in Advanced /\ Parallel(a)
+                     /\ ~SameValue(a["initial_state"], b["initial_state"])          \* advanced to ANOTHER state
+                     /\ \A g \in AdvDropped : b[g] = "d"
+                     /\ \A i \in 2..Len(AdvInitial) : b[AdvInitial[i]] \in {"d", "v1", "v2"}   \* no re-insertion twin
+                     /\ \A g \in DOMAIN a : g \in Range(AdvInitial) \cup AdvDropped \/ a[g] = b[g]
+    [] mk = "upd" -> /\ c \in Advanced
+                     /\ b["prediction"] # "d"                                       \* the prediction argument is required
+                     /\ \A g \in DOMAIN a : g \in AdvDropped \/ a[g] = b[g]
+                     /\ Differing(a, b) # {}
     [] OTHER -> FALSE
 
 (* ---- well-formedness of the table ---- *)
